@@ -949,7 +949,8 @@ def run(ctx):
     for lab, cv in pick(scal_int + scal_flt, 4):
         hcheck("dress", "brent_max:a,b=%s" % lab, canon, hcall(brent_max, J5, cv(0), cv(3), args=bps), {"solver": "brent_max", "a": 0, "b": 3, "dress": lab})
     for lab, cv in pick(scal_int, 5):
-        hcheck("dress", "brent_max:maxiter=%s" % lab, canon, hcall(brent_max, J5, 0.0, 3.0, args=bps, maxiter=cv(500)), {"solver": "brent_max", "maxiter": lab})
+        hcheck("dress", "brent_max:maxiter=%s" % lab, hcall(brent_max, J5, 0.0, 3.0, args=bps, maxiter=200), hcall(brent_max, J5, 0.0, 3.0, args=bps, maxiter=cv(200)),
+               {"solver": "brent_max", "maxiter": lab})
     hcheck("dress", "brent_max:xtol=np.float32", hcall(brent_max, J5, 0.0, 3.0, args=bps, xtol=float(np.float32(1e-4))),
            hcall(brent_max, J5, 0.0, 3.0, args=bps, xtol=np.float32(1e-4)), {"solver": "brent_max", "xtol": "float32"})
     hcheck("optional", "brent_max:explicit-defaults", canon, hcall(brent_max, J5, 0.0, 3.0, args=bps, xtol=1e-5, maxiter=500), {"solver": "brent_max"})
